@@ -480,3 +480,7 @@ TEXT["C05"]["level_text"] = ("TLC explores MC_Cluster in partition/heal mode (3 
                              "walks with the C05 monitor as invariant (the exhaustive run exceeds 1.5*10^7 states without finishing, so "
                              "no exhaustiveness is claimed). ") + TEXT["C05"]["level_text"]
 TEXT["C05"]["technique"] = "TLA+ spec + TLC random walks on MC_Cluster (partition/heal) + " + TEXT["C05"]["technique"]
+
+# the twin driver starts with Timer's own order (bound to the specification's TimerSeq), reported under C13
+for _t in ("quick", "thorough"):
+    PROPS["C13"]["drivers"][_t].append({"args": ["twin", "--runs", "4", "--steps", "100"], "shards": 1})
